@@ -60,6 +60,9 @@ def run(ctx):
     c13.r131_132(ctx, m)
     ctx.exhaustive = True
     from . import callsigs as _cs
+    from . import findings3 as _f3
+    _f3.statistics_decoding(ctx, 'R5.12')
+    _f3.drill_conditions(ctx, 'R5.13')
     _cs.general_rules(ctx, 'R5', ['api.filter_row_groups', 'api.filter_out_stats', 'api.filter_out_cats', 'api.filter_val', 'api.filter_in', 'api.filter_not_in', 'api.ParquetFile.to_pandas', 'api.ParquetFile.iter_row_groups', 'api.ParquetFile.count', 'api.sorted_partitioned_columns', 'api.ParquetFile._column_filter'])
 
 
@@ -248,6 +251,14 @@ def _enclosing(func, stmt):
     return CFG(func).enclosing_tests(stmt)
 
 
+def _bound_fields(expr, which):
+    """the expression reads the two statistics fields of this bound and nothing of the other one"""
+    if not expr:
+        return False
+    other = 'min' if which == 'max' else 'max'
+    return ('s.%s' % which) in expr and ('s.%s_value' % which) in expr and ('s.%s' % other) not in expr
+
+
 def r54(ctx, m):
     f = m.func('filter_out_stats')
     rets = [s for s in iter_child_stmts(f.body) if isinstance(s, ast.Return)
@@ -326,7 +337,11 @@ def r54(ctx, m):
     srcs = {norm(s.targets[0]): norm(s.value) for s in iter_child_stmts(f.body) if isinstance(s, ast.Assign)
             and norm(s.targets[0]) in ('max', 'min')}
     ctx.ob('R5.4', 'api.filter_out_stats:bounds-read-from-matching-statistics-fields',
-           srcs.get('max') == 's.max or s.max_value' and srcs.get('min') == 's.min or s.min_value', str(srcs), m.loc(f))
+           _bound_fields(srcs.get('max'), 'max') and _bound_fields(srcs.get('min'), 'min'), str(srcs), m.loc(f))
+    # the fields with a defined order (max_value / min_value) come before the deprecated ones
+    ctx.ob('R5.4', 'api.filter_out_stats:current-statistics-fields-preferred-to-the-deprecated-ones',
+           all(v is not None and v.find('s.%s_value' % k) >= 0 and v.find('s.%s_value' % k) < (v + ' ').replace('s.%s_value' % k, '#' * len('s.%s_value' % k)).find('s.%s' % k)
+               for k, v in ((k, srcs.get(k)) for k in ('max', 'min'))), str(srcs), m.loc(f))
 
     # filter_out_cats
     g = m.func('filter_out_cats')
